@@ -11,6 +11,8 @@ Definition c17_getitem : shift_cfg := mkShift CondIsLit (1) (0).
 Definition c17_array_min_idx : Z := (1).
 Definition c17_array_max_idx : Z := (-1).
 Definition c17_pos : pos_cfg := mkPos (Some (0)) true.
+Definition c17_pos_spark : pos_cfg := mkPos (Some (0)) true.
+Definition c17_pos_databricks : pos_cfg := mkPos (Some (0)) true.
 Definition c17_fact : fact_cfg := mkFact true TyInteger.
 Definition c17_fact_guard : option (Z * Z) := (Some ((0)%Z, (20)%Z)).
 Definition c17_rint : rint_cfg := mkRint RoundHalfEven (0).
